@@ -446,6 +446,8 @@ def r10(ctx):
     from . import apifw
     apifw.check_forwarder(ctx, "C07.R10", "doc_set_hash", "SetHashRequest", ["insert_local(req.doc_id,req.author_id,req.key,req.hash,req.size)"], "Ok(SetHashResponse)")
     apifw.check_forwarder(ctx, "C07.R10", "doc_del", "DelRequest", ["delete_prefix(req.doc_id,req.author_id,req.prefix)"], "Ok(DelResponse(result-of-delete_prefix))")
+    apifw.check_doc_set(ctx, "C07.R10")
+    apifw.check_forwarder(ctx, "C07.R10", "doc_create", "CreateRequest", ["import_namespace(", "open("], None, why="a created document is imported (with the write capability of its fresh secret, R13) and opened once")
     apifw.check_client(ctx, "C07.R10", "api::Doc::set_hash", "SetHashRequest")
     apifw.check_client(ctx, "C07.R10", "api::Doc::set_bytes", "SetRequest")
     apifw.check_client(ctx, "C07.R10", "api::Doc::del", "DelRequest")
